@@ -66,6 +66,8 @@ theorem parse_blank (s : Str) (h : ∀ c ∈ s, isSpace c = true) : parseIrreps 
     simpa using this
   simp [parseIrreps, this]
 
+example : ∀ c ∈ " \t\n".toList, isSpace c = true := by decide
+
 example : parseIrreps " 2 x 1y +0e+ 3x2y".toList = .ok [(2, ⟨1, .odd⟩), (1, ⟨0, .even⟩), (3, ⟨2, .even⟩)] := by
   decide +kernel
 
@@ -109,7 +111,7 @@ is `[dim(x[:k]), dim(x[:k+1]))`.  (So the first starts at 0, each starts where t
 stops at `dim x`, and slice `k` has length `mul_k·(2 l_k+1)`.) -/
 theorem slices_spec (x : Irreps) :
     (slices x).length = x.length ∧
-    ∀ k (hk : k < x.length), (slices x)[k]? = some (dim (x.take k), dim (x.take (k + 1))) := by
+    ∀ k, k < x.length → (slices x)[k]? = some (dim (x.take k), dim (x.take (k + 1))) := by
   refine ⟨slicesAux_length 0 x, fun k hk => ?_⟩
   have hlt : k < (slices x).length := by rw [slices, slicesAux_length]; exact hk
   rw [List.getElem?_eq_getElem hlt]
@@ -122,7 +124,10 @@ theorem slice_width (x : Irreps) (k : Nat) (hk : k < x.length) (s : Nat × Nat)
   rw [(slices_spec x).2 k hk] at h
   have e : x.take (k + 1) = x.take k ++ [x[k]] := by
     rw [List.take_add_one]; simp [List.getElem?_eq_getElem hk]
-  rw [← Option.some.inj h, e]
+  have hs : s = (dim (x.take k), dim (x.take (k + 1))) := (Option.some.inj h).symm
+  subst hs
+  show dim (x.take (k + 1)) = dim (x.take k) + _
+  rw [e, dim_append, dim_cons, dim_nil]
   simp [Irrep.dim]
 
 theorem slices_cover (x : Irreps) :
@@ -176,7 +181,7 @@ theorem lmax_spec (x : Irreps) :
     (lmax x = .error .valueMaxEmpty ↔ x ≠ [] ∧ ∀ e ∈ x, e.1 = 0) :=
   ⟨lmax_eq_ok_iff x, lmax_error_empty_iff x, lmax_error_max_iff x⟩
 
-example : lmax [(100, ⟨0, .even⟩), (50, ⟨1, .even⟩), (0, ⟨2, .even⟩)] = .ok 1 := by decide
+example : lmax [(100, ⟨0, .even⟩), (50, ⟨1, .even⟩), (0, ⟨2, .even⟩)] = .ok 1 := by decide +kernel
 example : lmax [(0, ⟨2, .even⟩)] = .error .valueMaxEmpty := by decide
 
 /-! ## 3. indexing, `+`, `*` -/
@@ -296,6 +301,12 @@ sorted for Python's tuple order is the list the model computes. -/
 theorem sorted_is_unique (l l' : List Triple) (hp : l'.Perm l)
     (hs : l'.Pairwise (fun a b => tripleLe a b = true)) : l' = sortTriples l :=
   sortTriples_unique l l' hp hs
+
+/-- the hypotheses are satisfiable by a list that is not already in input order -/
+example : let l : List Triple := [(⟨2, .odd⟩, 0, 1), (⟨1, .even⟩, 1, 1), (⟨0, .even⟩, 2, 1), (⟨1, .even⟩, 3, 1)]
+    let l' : List Triple := [(⟨0, .even⟩, 2, 1), (⟨1, .even⟩, 1, 1), (⟨1, .even⟩, 3, 1), (⟨2, .odd⟩, 0, 1)]
+    l'.Perm l ∧ l'.Pairwise (fun a b => tripleLe a b = true) := by
+  decide +kernel
 
 /-- Blocks of the sorted Irreps = the blocks of the entries of `x` taken in the order `inv`: the block list is
 permuted entry-wise (block permutation), nothing else changes.  In particular same dimension, same multiset
